@@ -443,6 +443,29 @@ def merge_problems(info, keys_before):
     return out
 
 
+def merge_reject_key(info, what, exc_text):
+    """site/reason code of a merge that raised after changing something"""
+    from psyclone.psyir.symbols import ContainerSymbol
+    pas = info["pass"]
+    exc = exc_text.split(":")[0]
+    if pas == "check_for_clashes":
+        return "merge/check_for_clashes/%s-changed-before-raise:%s" % (what, exc)
+    if pas == "container-pass":
+        self_names = {info["names_before"][id(x)].lower() for x in info["self_before"]}
+        causes = set()
+        for k in info["skip"]:
+            if not any(k is o for o in info["other_before"]):
+                continue
+            if info["names_before"][id(k)].lower() in self_names:
+                if isinstance(k, ContainerSymbol):
+                    causes.add("skipped-container")
+                elif k.is_import:
+                    causes.add("skipped-import")
+        cause = "+".join(sorted(causes)) or "other"
+        return "merge/container-pass/state-changed-before-raise:" + cause
+    return "merge/%s/state-changed-before-raise:%s" % (pas, exc)
+
+
 def changed_what(before, after):
     if before["slots"] != after["slots"] or before["det"] != after["det"]:
         return "tables"
@@ -461,6 +484,7 @@ def run_history(ctx, nslots, ops, record=True):
     snapshot)], problems = [(step index, key, what)] from the direct evaluation of the property."""
     impl = Impl(nslots)
     steps, problems = [], []
+    known_table_problems = set()
     for idx, op in enumerate(ops):
         before = impl.snapshot()
         tbl = impl.table(op[1]) if op[0] not in ("new_table", "detach", "attach") else None
@@ -477,14 +501,15 @@ def run_history(ctx, nslots, ops, record=True):
         if res[0] == "err" and res[1] != "ENoTable" and before != raw_after:
             what = changed_what(before, raw_after)
             if op[0] == "merge" and impl.last_merge is not None:
-                key = "merge/%s/%s-changed-before-raise" % (impl.last_merge["pass"], what)
-                if impl.last_merge["pass"] == "check_for_clashes":
-                    key += ":" + res[2].split(":")[0]
+                key = merge_reject_key(impl.last_merge, what, res[2])
             else:
                 key = "%s/%s-changed-before-raise" % (site, what)
-            problems.append((idx, key, "rejected operation (%s) changed the state" % res[2]))
-        for code, txt in table_problems(impl):
-            problems.append((idx, "%s/%s" % (site, code), txt))
+            problems.append((idx, key, "rejected operation (%s) changed the state (%s)" % (res[2], what)))
+        now = table_problems(impl)
+        for code, txt in now:
+            if (code, txt) not in known_table_problems:      # attribute it to the operation that broke it
+                problems.append((idx, "%s/%s" % (site, code), txt))
+        known_table_problems = set(now)
         if res[0] != "err":
             if op[0] == "lookup":
                 exp = expected_lookup(impl, op[1], op[2])
@@ -518,8 +543,36 @@ def run_history(ctx, nslots, ops, record=True):
 
 
 # ------------------------------------------------------------------------------- Coq printing
+def clist(items):
+    """list literal with explicit constructors (the recursive [ ; ] notation is slow to elaborate)"""
+    items = list(items)
+    out = "nil"
+    for it in reversed(items):
+        out = "(cons %s %s)" % (it, out)
+    return out
+
+
+class Pool:
+    """strings of a run as named Coq constants (a string literal costs ~10 kernel nodes per
+    character every time it is written; a constant costs one)"""
+
+    def __init__(self):
+        self.ids = {}
+
+    def __call__(self, s):
+        if s not in self.ids:
+            self.ids[s] = "z%d" % len(self.ids)
+        return self.ids[s]
+
+    def header(self):
+        return "\n".join("Definition %s : string := %s." % (v, core.coq_str(k)) for k, v in self.ids.items())
+
+
+POOL = Pool()
+
+
 def q(s):
-    return core.coq_str(s)
+    return POOL(s)
 
 
 def c_tref(t):
@@ -593,25 +646,43 @@ def c_result(r):
     return "(RErr %s)" % e
 
 
+def w_chain(cons, nil, items):
+    out = nil
+    for it in reversed(list(items)):
+        out = "(%s %s %s)" % (cons, it, out)
+    return out
+
+
 def c_entries(l):
-    return core.coq_list("(%s,%d)" % (q(k), s) for k, s in l)
+    return w_chain("WE", "WE0", ("%s %d" % (q(k), s) for k, s in l))
 
 
 def c_table(t):
-    return "(mkTable %s %s %s)" % (c_entries(t[0]), c_entries(t[1]), c_nats(t[2]))
+    return "(WT %s %s %s)" % (c_entries(t[0]), c_entries(t[1]), w_chain("WN", "WN0", (str(x) for x in t[2])))
 
 
 def c_state(s):
-    heap = core.coq_list("(mkSym %s %s %s %s)" % (q(n), k if not k.startswith("K?") else "KGeneric",
-                                                 c_bool(w), c_iface(i)) for n, k, w, i in s["heap"])
-    slots = core.coq_list("None" if t is None else "(Some %s)" % c_table(t) for t in s["slots"])
-    det = core.coq_list(c_table(t) for t in s["det"])
-    return "(mkState %s %s %s)" % (heap, slots, det)
+    """heap, slots, detached tables in the monomorphic wire format of coq/C16/Exec.v"""
+    heap = w_chain("WH", "WH0", ("%s %s %s %s" % (q(n), k if not k.startswith("K?") else "KGeneric",
+                                                 c_bool(w), c_iface(i)) for n, k, w, i in s["heap"]))
+    slots = "WS0"
+    for t in reversed(s["slots"]):
+        slots = "(WSnone %s)" % slots if t is None else "(WSsome %s %s)" % (c_table(t), slots)
+    det = w_chain("WD", "WD0", (c_table(t) for t in s["det"]))
+    return "%s %s %s" % (heap, slots, det)
 
 
-def c_case(nslots, steps):
-    return "(%d, %s)" % (nslots, core.coq_list("(%s, (%s, %s))" % (c_op(o), c_result(r), c_state(s))
-                                               for o, r, s in steps))
+def c_case(nslots, steps, full=False):
+    """expected states are written only where the implementation's state changed"""
+    items, prev = [], None
+    for o, r, s in steps:
+        if prev is not None and s == prev and not full:
+            st = "WSame"
+        else:
+            st = "(WNew %s)" % c_state(s)
+        prev = s
+        items.append("%s %s %s" % (c_op(o), c_result(r), st))
+    return "(WC %d %s)" % (nslots, w_chain("WP", "WP0", items))
 
 
 # --------------------------------------------------------------------------------- generators
@@ -816,6 +887,28 @@ def targeted_histories():
                     ("new_table",), ("new_table",), ("add", ("det", 1), "M", c, ""),
                     ("add", ("det", 0), "first", d, ""), ("add", ("det", 0), "x", ("KData", False, ("IImport", 2, "")), ""),
                     ("merge", ("slot", 0), 0, [])]))
+    # merge: specialise, then TypeError specialising a DataSymbol
+    out.append((1, [("add", ("slot", 0), "sin", un, ""), ("new_table",),
+                    ("add", ("det", 0), "SIN", ("KData", False, ("IUnres",)), ""), ("merge", ("slot", 0), 0, [])]))
+    # merge: skipped container clashes with an argument after another container was added
+    out.append((1, [("add", ("slot", 0), "m", ("KData", False, ("IArg",)), ""), ("new_table",),
+                    ("add", ("det", 0), "k", c, ""), ("add", ("det", 0), "M", c, ""), ("merge", ("slot", 0), 0, [2])]))
+    # merge: skipped container forces a rename
+    out.append((1, [("add", ("slot", 0), "a", d, ""), ("new_table",), ("add", ("det", 0), "A", c, ""),
+                    ("merge", ("slot", 0), 0, [1]), ("lookup", ("slot", 0), "a_1")]))
+    # merge: import whose container is visible from the receiving table is dropped
+    out.append((1, [("add", ("slot", 0), "sin", c, ""), ("new_table",),
+                    ("add", ("det", 0), "max", ("KData", False, ("IImport", 0, "a")), ""),
+                    ("add", ("slot", 0), "max", ("KIntrinsic", False, ("IAuto",)), ""), ("merge", ("slot", 0), 0, []),
+                    ("lookup", ("slot", 0), "max")]))
+    # merge: import whose container is nowhere in scope of the receiving table (KeyError after an add)
+    out.append((1, [("add", ("slot", 0), "x", d, ""), ("new_table",), ("new_table",), ("add", ("det", 1), "zz", c, ""),
+                    ("add", ("det", 0), "q", d, ""), ("add", ("det", 0), "X", ("KData", False, ("IImport", 1, "")), ""),
+                    ("merge", ("slot", 0), 0, [])]))
+    # merge: two IntrinsicSymbols pass check_for_clashes, neither can be renamed (SymbolError after an add)
+    out.append((1, [("add", ("slot", 0), "sin", ("KIntrinsic", False, ("ICommon",)), ""), ("new_table",),
+                    ("add", ("det", 0), "first", d, ""), ("add", ("det", 0), "SIN", ("KIntrinsic", False, ("ICommon",)), ""),
+                    ("merge", ("slot", 0), 0, [])]))
     # merge with renames on both sides, wildcard containers, nested scopes
     out.append((3, [("add", ("slot", 2), "a_1", d, ""), ("add", ("slot", 1), "A", d, ""), ("add", ("slot", 0), "a", ("KData", False, ("IArg",)), ""),
                     ("new_table",), ("add", ("det", 0), "A", d, "t1"), ("add", ("det", 0), "a_2", d, ""), ("add", ("det", 0), "Mod1", ("KContainer", True, ("IOther",)), ""),
@@ -912,7 +1005,7 @@ def run(ctx):
     # 2. histories
     rng = ctx.rng("gen")
     histories = [(n, [normalise_op(o) for o in ops]) for n, ops in targeted_histories()]
-    n_random = ctx.pick(420, 6000)
+    n_random = ctx.pick(500, 12000)
     for i in range(n_random):
         flavour = rng.choices(["mixed", "merge", "fresh", "intrinsic"], weights=[5, 3, 2, 2])[0]
         nslots = rng.choices([1, 2, 3, 4], weights=[3, 4, 4, 1])[0]
@@ -946,6 +1039,8 @@ def run(ctx):
     ctx.sample({"nslots": histories[-1][0], "ops": [list(o) for o in histories[-1][1]],
                 "impl_results": [r[:2] for _, r, _ in per_case[-1][2]]})
 
+    ctx.log("ran %d histories (%d operations) on the implementation" % (len(histories), ctx.cov["evaluations"]))
+
     # 3. the property evaluated directly on the implementation
     seen = set()
     for nslots, ops, (idx, key, what) in all_problems:
@@ -956,7 +1051,8 @@ def run(ctx):
         ctx.finding(key, what, replay_text(nslots, ops, idx))
 
     # 4. model = implementation
-    failing = ctx.coq_eval_failing(HEADER, "case", "check_case", cases, shard=ctx.pick(40, 60))
+    header = HEADER + "\n" + POOL.header()
+    failing = ctx.coq_eval_failing(header, "wcase", "check_wcase", cases, shard=ctx.pick(60, 100))
     ctx.cov["disagreements_checked"] = len(failing)
     ctx.log("histories=%d steps=%d model/impl disagreements=%d property failures on impl=%d (keys: %s)"
             % (len(cases), ctx.cov["evaluations"], len(failing), len(all_problems), sorted(seen)))
@@ -966,7 +1062,7 @@ def run(ctx):
         if failing:
             i = failing[0]
             nslots, ops, steps = per_case[i]
-            shown = ctx.coq_eval_show(HEADER, ["first_bad_strict (init_state %d) (snd %s) 0" % (nslots, cases[i])])
+            shown = ctx.coq_eval_show(header, ["first_bad_w %s" % cases[i]])
             first = {"nslots": nslots, "ops": [list(o) for o in ops], "impl_results": [list(r) for _, r, _ in steps],
                      "first_differing_step(model)": shown}
         ctx.violation({"property": "C16",
